@@ -63,6 +63,8 @@ func main() {
 		cmdChild(os.Args[2:])
 	case "batch":
 		cmdBatch(os.Args[2:])
+	case "sortprobe":
+		cmdSortProbe(os.Args[2:])
 	default:
 		die("unknown command %s", os.Args[1])
 	}
@@ -254,6 +256,7 @@ func cmdRender(args []string) {
 	block := fs.Int("block", 4000, "cases per block (memory)")
 	reuse := fs.Int("reuse", 0, "renders that reuse one loaded chart object (sequential; concurrent = -m)")
 	caps := fs.Int("caps", 0, "rounds of overlapping renders with one --api-versions entry each (charts that consult .Capabilities; 0 = off)")
+	cli := fs.Bool("cli", false, "also drive the helm command line (needs -disk) on the charts that call getHostByName")
 	nohooks := fs.Bool("nohooks", false, "also dry-run with DisableHooks (client-only and --dry-run=server)")
 	route := fs.Bool("route", false, "also render through a Configuration with a cluster connection (--dry-run=server)")
 	fs.Parse(args)
@@ -286,7 +289,7 @@ func cmdRender(args []string) {
 		if end > len(lines) {
 			end = len(lines)
 		}
-		for _, ol := range renderBlock(lines[start:end], start, hd, root, pl, *seed, *workers, *children, *uninst, *disk, *eng, *reuse, *route, *caps, *nohooks) {
+		for _, ol := range renderBlock(lines[start:end], start, hd, root, pl, *seed, *workers, *children, *uninst, *disk, *eng, *reuse, *route, *caps, *nohooks, *cli) {
 			must(enc.Encode(ol))
 		}
 	}
@@ -294,7 +297,7 @@ func cmdRender(args []string) {
 	f.Close()
 }
 
-func renderBlock(lines []render.CaseLine, offset int, hd hostDirs, root string, pl render.Plan, seed int64, workers, children, uninst int, disk, eng bool, reuse int, route bool, caps int, nohooks bool) []render.ObsLine {
+func renderBlock(lines []render.CaseLine, offset int, hd hostDirs, root string, pl render.Plan, seed int64, workers, children, uninst int, disk, eng bool, reuse int, route bool, caps int, nohooks, cli bool) []render.ObsLine {
 	hd.setCanary("CANARY-A")
 	hd.setDefs("absent")
 	refined := make([]render.CaseLine, len(lines))
@@ -332,6 +335,9 @@ func renderBlock(lines []render.CaseLine, offset int, hd hostDirs, root string, 
 		render.ObserveReuse(accs[i], mat, reuse, pl.M, seed)
 		if route {
 			render.ObserveRoute(accs[i], mat, seed)
+		}
+		if cli {
+			render.ObserveCLI(accs[i], mat)
 		}
 		if nohooks {
 			render.ObserveNoHooks(accs[i], mat, seed)
@@ -470,4 +476,52 @@ func cmdBatch(args []string) {
 	res := make([]render.BatchObs, len(cases))
 	parallel(len(cases), *workers, func(i int) { res[i] = render.RunBatch(cases[i], *grace) })
 	writeLines(*out, res)
+}
+
+// ---- sortprobe: the real kind sort on arbitrary kinds ----------------------------------------------
+
+type probeCase struct {
+	Table string   `json:"table"` // install | uninstall
+	Kinds []string `json:"kinds"`
+	Alpha []string `json:"alpha"`
+	Out   []string `json:"out"`
+}
+
+// cmdSortProbe runs the real releaseutil.SortManifests, with the install / uninstall table of the code, over one
+// template file holding one document per given kind (in the given order) and reports the kinds in output order.
+func cmdSortProbe(args []string) {
+	fs := flag.NewFlagSet("sortprobe", flag.ExitOnError)
+	in := fs.String("in", "", "")
+	out := fs.String("out", "", "")
+	fs.Parse(args)
+	cases := readLines[probeCase](*in)
+	for i := range cases {
+		c := &cases[i]
+		var docs []string
+		for j, k := range c.Kinds {
+			docs = append(docs, fmt.Sprintf("apiVersion: v1\nkind: %s\nmetadata:\n  name: k%d\n", k, j))
+		}
+		order := releaseutil.InstallOrder
+		if c.Table == "uninstall" {
+			order = releaseutil.UninstallOrder
+		}
+		_, man, err := releaseutil.SortManifests(map[string]string{"p/templates/a.yaml": strings.Join(docs, "---\n")}, nil, order)
+		c.Out = []string{}
+		if err == nil {
+			for _, m := range man {
+				c.Out = append(c.Out, m.Head.Kind)
+			}
+		}
+		c.Alpha = append([]string{}, c.Kinds...)
+		sort.Strings(c.Alpha)
+		// distinct kinds only (alpha is a table of positions)
+		uniq := c.Alpha[:0]
+		for j, k := range c.Alpha {
+			if j == 0 || k != c.Alpha[j-1] {
+				uniq = append(uniq, k)
+			}
+		}
+		c.Alpha = uniq
+	}
+	writeLines(*out, cases)
 }
